@@ -64,6 +64,23 @@ def gen_forms():
     calls = re.findall(r"createAttributes\s*\([^;]*?,\s*(true|false)\s*\)\s*;", ca)
     if calls != ["true", "false"]:
         raise AnchorError("createAttributes: expected the namespace pass (true) followed by the attribute pass (false), got %r" % calls)
+    # the element-by-ID table (FormsIdDefs): only an attribute whose declared type is EXACTLY "ID" is registered,
+    # by insert (the first element registered for a value stays)
+    cs = function_body(doc, r"XalanSourceTreeDocument::createAttributes\s*\(\s*XalanSourceTreeAttr\s*\*\*\s*theAttributeVector\s*,\s*const\s+AttributesType\s*&\s*theAttributes\s*,[^)]*\)\s*\{",
+                       "createAttributes(vector, attrs, startIndex, owner, fCreateNamespaces)")
+    csq = re.sub(r"\s+", "", cs)
+    need(r"constXalanDOMChar\*theType=theAttributes\.getType\(i\);", csq, "createAttributes: theType = theAttributes.getType(i)")
+    if "if(*theType==XalanUnicode::charLetter_I&&*++theType==XalanUnicode::charLetter_D&&*++theType==0){" in csq:
+        facts["id_type_exact"] = True
+    else:
+        raise AnchorError("createAttributes: the declared-type test is no longer exactly 'I','D',terminator (model: FormsIdDefs.is_id_type)")
+    need(r"m_elementsByID\.insert\(ElementByIDMapType::value_type\(theAttributeVector\[theStartIndex\]->getValue\(\)\.c_str\(\),theOwnerElement\)\);", csq,
+         "createAttributes: m_elementsByID.insert(value of the new attribute -> owner element)")
+    if len(re.findall(r"m_elementsByID\s*(\.\s*insert|\[)", doc)) != 1:
+        raise AnchorError("XalanSourceTreeDocument.cpp: m_elementsByID is filled in more than one place")
+    gb = re.sub(r"\s+", "", function_body(doc, r"XalanSourceTreeDocument::getElementById\s*\([^)]*\)\s*const\s*\{", "XalanSourceTreeDocument::getElementById"))
+    need(r"m_elementsByID\.find\(elementId\.c_str\(\)\);if\(i==m_elementsByID\.end\(\)\)\{return0;\}else\{return\(\*i\)\.second;\}", gb,
+         "getElementById: a lookup in m_elementsByID")
     ix = ca.find("s_XMLNamespacePrefix")
     if not (0 <= ix < ca.find("createAttributes(")):
         raise AnchorError("createAttributes: the xmlns:xml attribute is not created first")
@@ -145,7 +162,7 @@ def gen_forms():
             "From Coq Require Import NArith.\n")
     for k in ("flush_at_start", "flush_at_end", "flush_at_comment", "flush_at_pi", "flush_at_ignws", "accumulate_text",
               "element_before_attrs", "nsdecls_first", "wrap_attrs_in_start", "wrap_element_before_attrs", "wrap_links_doctype",
-              "stream_keeps_high_surrogate"):
+              "stream_keeps_high_surrogate", "id_type_exact"):
         text += "Definition %s : bool := %s.\n" % (k, _b(facts[k]))
     for k in ("first_index", "wrap_doc_index", "wrap_first_index", "ostream_bufsize"):
         text += "Definition %s : N := %d%%N.\n" % (k, facts[k])
